@@ -549,10 +549,14 @@ func c18Concurrent(w *h.W, batch int) {
 				run.fail("barrier %d: accounted size %d != sum of live entries %d", b, acc, live)
 			}
 			if limit > 0 {
-				cl.Rotate()
+				// a cleaning pass on its own, or after a rotation: either way it must end under the limit
+				rotated := chk.Bool()
+				if rotated {
+					cl.Rotate()
+				}
 				cl.Cleanup(&cache.CleanStat{})
 				if a2 := cl.VerifAccountedSize(); a2 > limit {
-					run.fail("barrier %d: after a Rotate+Cleanup pass without concurrent lookups the accounted size is %d > limit %d", b, a2, limit)
+					run.fail("barrier %d: after a cleaning pass (rotation before it: %v) without concurrent lookups the accounted size is %d > limit %d", b, rotated, a2, limit)
 				}
 			}
 			// retire one cache / create a new one now and then
@@ -572,11 +576,14 @@ func c18Concurrent(w *h.W, batch int) {
 					c.c.Release()
 					c.use.Unlock()
 				}
-				if chk.Bool() {
-					addCache()
-				}
 			}
 			world.Unlock()
+			// a new cache now and then, created while callers and the maintenance goroutine are running (as a new fraction does)
+			if chk.Chance(1, 6) {
+				world.RLock()
+				addCache()
+				world.RUnlock()
+			}
 			done := callersDone.Load() >= int64(callers)
 			run.mu.Lock()
 			failed := run.bad != ""
